@@ -1,5 +1,6 @@
 import Mouette.Lemmas.GeomSource
 import Mouette.Lemmas.OpLemmas
+import Mouette.Lemmas.MassEdges
 /-
 Normal forms of the hand model `Model/Geom.lean` used by the bridges `Generated.C07Src.f = Model.f` (Props/C07Source.lean).
 -/
@@ -134,5 +135,23 @@ theorem vsum_components (l : List V3) :
   | cons p ps ih =>
     simp only [vsum, rsum, List.foldr_cons, List.map_cons, add] at ih ⊢
     exact ⟨by rw [ih.1], by rw [ih.2.1], by rw [ih.2.2]⟩
+
+/-- on a triangle mesh the first corner of face `t` is `3t` -/
+theorem firstCorner_tri (faces : List Face) (h : ∀ f ∈ faces, f.length = 3) : ∀ (t : Nat), t ≤ faces.length → firstCorner faces t = 3 * t := by
+  induction faces with
+  | nil => intro t ht; simp at ht; subst ht; simp [firstCorner]
+  | cons f fs ih =>
+    intro t ht
+    cases t with
+    | zero => simp [firstCorner]
+    | succ t =>
+      have hf : f.length = 3 := h f (by simp)
+      have := ih (fun g hg => h g (by simp [hg])) t (by simpa using ht)
+      simp only [firstCorner, List.take_succ_cons, List.map_cons, List.sum_cons, hf] at this ⊢
+      omega
+
+theorem directFace_lt (faces : List Face) (a b : Nat) (r : Nat × Nat × Nat) (h : directFace faces a b = some r) : r.1 < faces.length := by
+  have := Mouette.Ops.directFaceAux_lt faces 0 a b r h
+  omega
 
 end Mouette.GeomSrc
